@@ -627,6 +627,36 @@ def _hashable(v):
     return v
 
 
+def index_feeders(node, prefix=(), acc=None):
+    """Static parts of the addresses of choices whose value is the branch index
+    of a switch (mix's "mixture_component"; `i ~ categorical; switch(i, ...)`)."""
+    from sim.texpr import expr_refs
+
+    if acc is None:
+        acc = set()
+    k = node["k"]
+    if k == "mix":
+        acc.add(prefix + ("mixture_component",))
+        for b in node["branches"]:
+            index_feeders(b, prefix + ("component_sample",), acc)
+        return acc
+    if k == "static":
+        for j, s in enumerate(node["stmts"]):
+            c = s["callee"]
+            core = c
+            while core["k"] in ("map", "dimap", "contramap"):
+                core = core["inner"]
+            if core["k"] in ("switch", "or_else") and s["args"]:
+                for r in expr_refs(s["args"][0]):
+                    if r[0] == "v" and r[1] < j and node["stmts"][r[1]]["callee"]["k"] == "dist":
+                        acc.add(prefix + addr_of(node["stmts"][r[1]]))
+            index_feeders(c, prefix + addr_of(s), acc)
+        return acc
+    for c in inner_nodes(node):
+        index_feeders(c, prefix, acc)
+    return acc
+
+
 def switch_map(node, prefix=(), under=(), direct=True, acc=None, counter=None):
     """address -> tuple of (switch id, is_direct) for every switch-like node the
     address lies under.  `direct` switches are those whose index is literally the
